@@ -74,6 +74,55 @@ fn dummy_utxos(rng: &mut Rng) -> HashSet<Utxo> {
 }
 
 impl C06 {
+    fn facade_staged(&self, ctx: &mut Ctx, src: &str, txs: &[String], rng: &mut Rng) {
+        use tx3_lang::Workspace;
+        let r = crate::panics::catch(|| -> Option<(Vec<Vec<String>>, Vec<(String, Vec<String>)>)> {
+            let mut w = Workspace::from_string(src.to_string());
+            w.lower().ok()?;
+            let mut all: BTreeMap<String, ArgValue> = BTreeMap::new();
+            for n in txs {
+                for (k, t) in find_params(w.tir(n)?) {
+                    all.entry(k).or_insert_with(|| arg_for(&t, rng));
+                }
+            }
+            if all.len() < 2 {
+                return None;
+            }
+            let nb = 2 + rng.usize(2);
+            let mut batches: Vec<BTreeMap<String, ArgValue>> = vec![BTreeMap::new(); nb];
+            for (k, v) in &all {
+                batches[rng.usize(nb)].insert(k.clone(), v.clone());
+            }
+            let mut log = vec![];
+            for b in &batches {
+                if b.is_empty() {
+                    continue;
+                }
+                log.push(b.keys().cloned().collect::<Vec<_>>());
+                w.apply_args(b).ok()?;
+            }
+            let mut left = vec![];
+            for n in txs {
+                let still: Vec<String> = find_params(w.tir(n)?).into_keys().filter(|k| all.contains_key(k)).collect();
+                if !still.is_empty() {
+                    left.push((n.clone(), still));
+                }
+            }
+            Some((log, left))
+        });
+        match r {
+            Err(p) => ctx.violation(format!("facade-{}", p.signature()), json!({"source": src, "panic": p.message})),
+            Ok(None) => ctx.count("facade-staged/skipped"),
+            Ok(Some((log, left))) => {
+                ctx.eval();
+                ctx.count("facade-staged/checked");
+                if !left.is_empty() {
+                    ctx.violation("unsubstituted:param:facade:staged-apply_args", json!({"source": src, "batches": log, "still_reported_after_all_batches": left}));
+                }
+            }
+        }
+    }
+
     fn check_ir(&self, ctx: &mut Ctx, tx: &tir::Tx, rng: &mut Rng, origin: &serde_json::Value, from_language: bool) {
         ctx.eval();
         let pfx = if from_language { "pos-lang" } else { "pos-tree" };
@@ -174,7 +223,7 @@ impl Property for C06 {
         "C06"
     }
     fn rule(&self) -> String {
-        "templates: every tx of generated programs (all features incl. parameters in list indices, compiler built-ins, chain-specific directives, nested queries, redeemers, metadata, signers, validity) lowered by the real front end, plus the example programs; trees: random IR trees in which every expression position (struct fields, list/map/tuple elements, asset policy/name/amount, property operand and index, query address/min_amount/ref, coercion and compiler-op operands, ad-hoc directive fields, every block field) may hold ExpectValue / ExpectInput / ExpectFees. Oracle: an independent walk over the Serialize output of the IR finds the unresolved nodes; their names must be reported by find_params / find_queries (and vice versa); after apply_args(all reported) no ExpectValue node remains, after apply_fees no ExpectFees, after apply_inputs(all reported queries) no ExpectInput; after compiler ops + reduce nothing is left and is_constant agrees with the walk; resolve_tx without one reported argument returns MissingTxArg naming it. The evidence lists the (kind, position) pairs reached. Non-trivial: >= 3 unresolved nodes; distinct = distinct canonical IRs.".into()
+        "templates: every tx of generated programs (all features incl. parameters in list indices, compiler built-ins, chain-specific directives, nested queries, redeemers, metadata, signers, validity) lowered by the real front end, plus the example programs; trees: random IR trees in which every expression position (struct fields, list/map/tuple elements, asset policy/name/amount, property operand and index, query address/min_amount/ref, coercion and compiler-op operands, ad-hoc directive fields, every block field) may hold ExpectValue / ExpectInput / ExpectFees. Oracle: an independent walk over the Serialize output of the IR finds the unresolved nodes; their names must be reported by find_params / find_queries (and vice versa); after apply_args(all reported) no ExpectValue node remains, after apply_fees no ExpectFees, after apply_inputs(all reported queries) no ExpectInput; after compiler ops + reduce nothing is left and is_constant agrees with the walk; resolve_tx without one reported argument (half of the time with its value present under a key that differs in letter case only) returns MissingTxArg naming it; through the Workspace facade the arguments arrive in 2..3 apply_args batches, after which no tx may still report a supplied parameter. The evidence lists the (kind, position) pairs reached. Non-trivial: >= 3 unresolved nodes; distinct = distinct canonical IRs.".into()
     }
     fn assumptions(&self) -> Vec<String> {
         vec!["nodes below an already applied Param::Set are not 'unresolved' (the language cannot produce a parameter there)".into()]
@@ -187,7 +236,7 @@ impl Property for C06 {
     }
     fn required_features(&self, _tier: Tier) -> Vec<String> {
         [
-            "closed-by-application", "reduced", "missing-arg/checked", "examples/tx",
+            "closed-by-application", "reduced", "missing-arg/checked", "missing-arg/with-case-variant-key-present", "facade-staged/checked", "examples/tx",
             "pos-lang/param/outputs:Property[1]", "pos-lang/param/outputs:Struct", "pos-lang/param/inputs:ExpectInput.address", "pos-lang/param/inputs:ExpectInput.ref", "pos-lang/fees/inputs:ExpectInput.min_amount",
             "pos-lang/fees/outputs:Sub[1]", "pos-lang/input/outputs:IntoAssets", "pos-lang/input/outputs:IntoDatum", "pos-lang/param/adhoc.data.amount", "pos-lang/param/adhoc.data.redeemer", "pos-lang/param/adhoc:Struct",
             "pos-lang/param/validity.until", "pos-lang/param/validity:ComputeTimeToSlot", "pos-lang/param/metadata.value", "pos-lang/param/signers.signers", "pos-lang/param/inputs.redeemer", "pos-lang/param/mints.redeemer",
@@ -220,7 +269,16 @@ impl Property for C06 {
                     let all: BTreeMap<String, ArgValue> = params.iter().map(|(k, t)| (k.clone(), arg_for(t, rng))).collect();
                     for missing in params.keys() {
                         let mut args = all.clone();
-                        args.remove(missing);
+                        let v = args.remove(missing);
+                        // half of the time the caller did supply something - under a key that differs from the
+                        // reported name in letter case only: the reported parameter is still absent
+                        if let (Some(v), true) = (v, rng.bool()) {
+                            let variant = if rng.bool() { missing.to_uppercase() } else { let mut c = missing.chars(); c.next().map(|f| f.to_uppercase().collect::<String>() + c.as_str()).unwrap_or_default() };
+                            if variant != *missing && !all.contains_key(&variant) {
+                                args.insert(variant, v);
+                                ctx.count("missing-arg/with-case-variant-key-present");
+                            }
+                        }
                         let store = LoggedStore::new(vec![]);
                         let mut compiler = env::compiler(&PP::default());
                         ctx.eval();
@@ -238,6 +296,9 @@ impl Property for C06 {
                         ctx.sample(|| json!({"source": src, "tx": txd.name, "find_params": params.keys().collect::<Vec<_>>()}));
                     }
                 }
+                // (4) the same through the Workspace facade, the arguments arriving in 2..3 batches: after the
+                // last batch no tx may still report a parameter that was supplied
+                self.facade_staged(ctx, &src, &g.prog.txs.iter().map(|t| t.name.clone()).collect::<Vec<_>>(), rng);
             }
             "examples" => {
                 let env = Env::from_env();
